@@ -69,6 +69,35 @@ def parseMember (j : Json) : Except String (Member Nat) := do
     return .facet (← (a[1]?.getD Json.null).getNat?) rest
   | _ => throw "member"
 
+def parsePC (s : String) : Except String PC :=
+  match s with
+  | "strict" => pure .strict | "lax" => pure .lax | "skip" => pure .skip | _ => throw s!"processContents {s}"
+
+/-- lookup: "unavailable" | "notFound" | [inner events] -/
+def parseLookup (j : Json) : Except String Lookup :=
+  match j with
+  | .str "unavailable" => pure .unavailable
+  | .str "notFound" => pure .notFound
+  | .arr a => do return .declared (← a.toList.mapM (·.getNat?))
+  | _ => throw "lookup"
+
+def handleWild (j : Json) : Except String Json := do
+  let pc ← parsePC (← getStr j "pc")
+  let matching ← getBool j "matching"
+  let ps ← getBool j "ps"
+  let lk ← parseLookup (← j.getObjVal? "lookup")
+  let eNA ← getNat j "eNA"
+  let eUn ← getNat j "eUn"
+  let eNF ← getNat j "eNF"
+  let kind ← getStr j "kind"
+  let f : Mode → List Err ←
+    if kind == "attr" then pure (fun m => anyAttrEvents m pc matching ps lk eNA eUn eNF)
+    else do
+      let xsiType ← getBool j "xsiType"
+      let anon ← (← getArr j "anon").toList.mapM (·.getNat?)
+      pure (fun m => anyElemEvents m pc matching ps xsiType lk anon eNA eUn eNF)
+  return Json.mkObj [("strict", nats (f .strict)), ("lax", nats (f .lax)), ("skip", nats (f .skip))]
+
 /-! value constraints / document-level state (Model/AttrDefaults.lean) -/
 section AttrDefaults
 open XsVerif.AttrDefaults
@@ -194,6 +223,7 @@ def handle (j : Json) : Except String Json := do
     return Json.mkObj [("exit", nat (cliExit fs)), ("total", nat (totErrors fs)),
                        ("unsaturated", nat (osStatus (cliCodeUnsaturated fs)))]
   | "attrs" => handleAttrs j
+  | "wild" => handleWild j
   | "union" =>
     let ms ← (← getArr j "members").toList.mapM parseMember
     let g ← getNat j "generic"
